@@ -6,6 +6,7 @@ pub mod c02;
 pub mod c03;
 pub mod c04;
 pub mod c05;
+pub mod c06;
 
 pub fn lookup(id: &str) -> Option<&'static dyn Property> {
     let p: &'static dyn Property = match id {
@@ -14,6 +15,7 @@ pub fn lookup(id: &str) -> Option<&'static dyn Property> {
         "C03" => &c03::C03,
         "C04" => &c04::C04,
         "C05" => &c05::C05,
+        "C06" => &c06::C06,
         _ => return None,
     };
     Some(p)
